@@ -527,7 +527,8 @@ def draw_plan(case: dict, ctx) -> Plan:  # noqa: C901
             p.xmcd_spec = [*core.pick(rng, [("flexspi_ram", "simplified"), ("flexspi_ram", "full"), ("semc_sdram", "simplified"), ("semc_sdram", "full")]),
                            core.pick(rng, [0, 0, 0, 1, 2])]
     # authentication
-    p.set = force.get("set") or core.pick(rng, SETS)
+    # the 4096/3072-bit set costs 0.5-1.8 s per image (key loading + signing): drawn less often in the quick tier
+    p.set = force.get("set") or core.pick(rng, SETS if ctx.tier == "thorough" else ("rsa2048", "p256", "p384", "p521") * 2 + ("rsa4096",))
     p.nocak = bool(force.get("nocak"))
     p.nkeys, p.srk = (force["nkeys"], force["srk"]) if "nkeys" in force else core.pick(rng, SRK_COMBOS)
     p.hash_others = rng.random() < 0.25 and not p.nocak
@@ -549,6 +550,7 @@ def draw_plan(case: dict, ctx) -> Plan:  # noqa: C901
     p.kek_index = core.pick(rng, [0, 0, 2, 3])
     p.form = case.get("form") or core.pick(rng, ["dict", "dict", "dict", "yaml", "bd"])
     p.xmcd_altered = False
+    p.parsed_csf = None
     return p
 
 
@@ -680,6 +682,13 @@ def sig_of(case: dict, p: Plan) -> list:
     return [case["kind"], p.dev, p.flags, p.form, extra, auth, enc, lcls, res]
 
 
+def _echo(ctx, p: Plan, name: str, **detail):
+    """Configuration value not echoed in the CSF: NOT a clause of C07 (the statement speaks about what the CSF contains,
+    whatever it is) - recorded as an observation only."""
+    ctx.count("config_echo_mismatches")
+    ctx.note("config_not_echoed:" + name, dict(detail, family=p.family, dev=p.dev, flags=p.flags))
+
+
 def _viol(ctx, p: Plan, mech: str, **detail):
     d = {"plan": describe(p)}
     d.update(detail)
@@ -725,7 +734,7 @@ def run_case(case, ctx):  # noqa: C901
             data = hab.export()
             data2 = hab.export()
             if data2 != data:
-                _viol(ctx, p, "export-not-repeatable", first=len(data), second=len(data2))
+                _echo(ctx, p, "export-not-repeatable", first=len(data), second=len(data2))
     except SPSDKError as e:
         ctx.refused(sig, f"{type(e).__name__}: {str(e)[:100]}")
         ctx.count("refused_" + type(e).__name__)
@@ -823,6 +832,20 @@ def judge_image(case, ctx, p: Plan, data: bytes, hab, sig):  # noqa: C901
 
     # ---- layout -------------------------------------------------------------------------------------
     ivt, bdt = img.ivt, img.boot_data
+    if overlap:
+        # the layout cannot hold both inputs: the only right answers are a refusal or (never) both intact
+        intact = True
+        if p.dcd is not None:
+            intact &= data[DCD_OFF:DCD_OFF + len(p.dcd)] == p.dcd
+        if p.xmcd is not None:
+            intact &= data[0x40:0x40 + len(p.xmcd)] == p.xmcd
+        intact &= data[p.app_off:p.app_off + len(p.app)] == p.app or enc
+        if overlap == "dcd+app":
+            _viol(ctx, p, "dcd-overwritten-by-application", dcd=p.dcd_name, dcd_len=len(p.dcd), room=p.app_off - DCD_OFF, all_inputs_intact=intact,
+                  ivt_dcd=hex(ivt["dcd"]), dcd_header_len=img.dcd["length"] if img.dcd else None)
+        else:
+            _viol(ctx, p, "overlapping-segments-not-refused:" + overlap, all_inputs_intact=intact)
+        return
     if ivt["self"] != ivt_addr:
         _viol(ctx, p, "ivt-self-pointer", got=hex(ivt["self"]), want=hex(ivt_addr))
     if ivt["entry"] != p.entry:
@@ -838,20 +861,6 @@ def judge_image(case, ctx, p: Plan, data: bytes, hab, sig):  # noqa: C901
         _viol(ctx, p, "ivt-dcd-pointer", got=hex(ivt["dcd"]), dcd_given=p.dcd is not None)
     if (ivt["csf"] != 0) != auth:
         _viol(ctx, p, "ivt-csf-pointer-vs-flags", got=hex(ivt["csf"]))
-    if overlap:
-        # the layout cannot hold both inputs: the only right answers are a refusal or (never) both intact
-        intact = True
-        if p.dcd is not None:
-            intact &= data[DCD_OFF:DCD_OFF + len(p.dcd)] == p.dcd
-        if p.xmcd is not None:
-            intact &= data[0x40:0x40 + len(p.xmcd)] == p.xmcd
-        intact &= data[p.app_off:p.app_off + len(p.app)] == p.app or enc
-        if overlap == "dcd+app":
-            _viol(ctx, p, "dcd-overwritten-by-application", dcd=p.dcd_name, dcd_len=len(p.dcd), room=p.app_off - DCD_OFF, all_inputs_intact=intact,
-                  ivt_dcd=hex(ivt["dcd"]), dcd_header_len=img.dcd["length"] if img.dcd else None)
-        else:
-            _viol(ctx, p, "overlapping-segments-not-refused:" + overlap, all_inputs_intact=intact)
-        return
     if p.dcd is not None:
         got = data[DCD_OFF:DCD_OFF + len(p.dcd)]
         if got != p.dcd:
@@ -878,10 +887,6 @@ def judge_image(case, ctx, p: Plan, data: bytes, hab, sig):  # noqa: C901
         csf_off = img.csf["offset"]
         if csf_off < p.app_off + len(app_padded):
             _viol(ctx, p, "csf-overlaps-application", csf_off=hex(csf_off), app_end=hex(p.app_off + len(app_padded)))
-        if csf_off + 0x2000 != len(data):
-            _viol(ctx, p, "csf-not-at-end-of-export", csf_off=hex(csf_off), exported=hex(len(data)))
-    elif not auth and len(data) != p.app_off + len(p.app):
-        _viol(ctx, p, "plain-image-length", exported=hex(len(data)), want=hex(p.app_off + len(p.app)))
     ctx.count("layout_checked")
 
     # ---- parse round trip ---------------------------------------------------------------------------------
@@ -949,8 +954,7 @@ def judge_parse(ctx, p, data, hab, img, enc, app_padded, HabContainer, IvtHabSeg
             back = [x.export() for x in c.segment.commands]
             if built != back:
                 _viol(ctx, p, "parse-csf-commands-differ", first=next(i for i in range(len(built)) if built[i] != back[i]), parsed=names)
-        if enc and (c.nonce is None or c.mac_len != p.mac or (p.nonce is not None and c.nonce != p.nonce)):
-            _viol(ctx, p, "parse-mac-parameters-differ", mac_len=c.mac_len, nonce=c.nonce and c.nonce.hex())
+        p.parsed_csf = c
     if parsed is not None:
         if (segs["dcd"] is not None) != (p.dcd is not None):
             _viol(ctx, p, "parse-dcd-presence", parsed=segs["dcd"] is not None)
@@ -967,7 +971,11 @@ def judge_parse(ctx, p, data, hab, img, enc, app_padded, HabContainer, IvtHabSeg
                 _viol(ctx, p, "parse-application-offset", parsed=hex(a.offset), built=hex(p.app_off), dcd=p.dcd_name)
             elif a.binary[:len(p.app)] != p.app or any(a.binary[len(p.app):]):
                 _viol(ctx, p, "parse-application-differs", parsed_len=len(a.binary), app_len=len(p.app))
-            again = parsed.export()
+            try:
+                again = parsed.export()
+            except SPSDKError as e:
+                _viol(ctx, p, "parse-reexport-refused", error=core.exc_brief(e))
+                again = data
             if again != data:
                 _viol(ctx, p, "parse-reexport-differs", reexported=len(again), exported=len(data),
                       first_diff=next((i for i in range(min(len(again), len(data))) if again[i] != data[i]), None))
@@ -1004,38 +1012,40 @@ def judge_auth(ctx, p, img, enc, app_addr, app_padded):  # noqa: C901
         exp_entries.append(raw)
     got_entries = [e["raw"] for e in r["srk_table"]["entries"]]
     if got_entries != exp_entries:
-        _viol(ctx, p, "srk-table-entries-differ-from-certificates", entries=len(got_entries),
+        _echo(ctx, p, "srk-table-entries-differ-from-certificates", entries=len(got_entries),
               first=next((i for i in range(min(len(got_entries), len(exp_entries))) if got_entries[i] != exp_entries[i]), None))
     if r["srk_index"] != p.srk:
-        _viol(ctx, p, "srk-source-index", got=r["srk_index"], want=p.srk)
+        _echo(ctx, p, "srk-source-index", got=r["srk_index"], want=p.srk)
     own = hashlib.sha256(b"".join(hashlib.sha256(x).digest() if x[0] == hab_ref.TAG_SRK_KEY else x[4:] for x in exp_entries)).digest()
-    if r["srk_hash"] != p.fuses or own != p.fuses:
+    if r["srk_hash"] != p.fuses:
         _viol(ctx, p, "srk-fuse-hash-mismatch", export_fuses=p.fuses.hex(), from_image=r["srk_hash"].hex(), from_certificates=own.hex())
+    elif own != p.fuses:
+        _echo(ctx, p, "srk-hash-from-certificates-differs", export_fuses=p.fuses.hex(), from_certificates=own.hex())
     ctx.count("srk_hash_checked")
     # installed keys: the configured certificates, issued by the installed SRK (verified inside authenticate)
     if p.nocak:
         if not r.get("fast_authentication") or r.get("csf_key_slot") != 1 or r.get("image_key_slots") != [0]:
-            _viol(ctx, p, "fast-authentication-key-slots", csf=r.get("csf_key_slot"), image=r.get("image_key_slots"))
+            _echo(ctx, p, "fast-authentication-key-slots", csf=r.get("csf_key_slot"), image=r.get("image_key_slots"))
     else:
         cs, im = r["keys"].get(1), r["keys"].get(p.img_slot)
         if cs is None or cs.get("cert") is None or cs["cert"]["der"] != cert_der(p.set, p.csf_stem) or cs.get("issuer_slot") != 0:
-            _viol(ctx, p, "installed-csf-key-is-not-the-configured-certificate")
+            _echo(ctx, p, "installed-csf-key-is-not-the-configured-certificate")
         if im is None or im.get("cert") is None or im["cert"]["der"] != cert_der(p.set, p.img_stem) or im.get("issuer_slot") != 0:
-            _viol(ctx, p, "installed-img-key-is-not-the-configured-certificate", slots=sorted(k for k in r["keys"] if k < 0x100))
+            _echo(ctx, p, "installed-img-key-is-not-the-configured-certificate", slots=sorted(k for k in r["keys"] if k < 0x100))
         if r.get("csf_key_slot") != 1 or r.get("image_key_slots") != [p.img_slot]:
-            _viol(ctx, p, "authenticate-data-key-slots", csf=r.get("csf_key_slot"), image=r.get("image_key_slots"))
+            _echo(ctx, p, "authenticate-data-key-slots", csf=r.get("csf_key_slot"), image=r.get("image_key_slots"))
     ctx.count("chain_checked")
     # other CSF contents
     ver = int(p.version.replace(".", ""), 16)
     if img.csf["version"] != ver:
-        _viol(ctx, p, "csf-version", got=hex(img.csf["version"]), want=hex(ver))
+        _echo(ctx, p, "csf-version", got=hex(img.csf["version"]), want=hex(ver))
     exp_unl = [] if not p.unlock else [{"engine": ENGINE_TAGS[p.unlock[0]], "features": p.unlock[2],
                                         "uid": int("".join("%02x" % int(x, 0) for x in p.unlock[3].split(",")), 16) if p.unlock[3] else None}]
     if r["unlocks"] != exp_unl:
-        _viol(ctx, p, "unlock-command-differs", got=r["unlocks"], want=exp_unl)
+        _echo(ctx, p, "unlock-command-differs", got=r["unlocks"], want=exp_unl)
     exp_set = [] if not p.set_engine else [{"item": 3, "algorithm": hab_ref.ALG_SHA256, "engine": ENGINE_TAGS[p.engine], "engine_cfg": 0}]
     if r["sets"] != exp_set:
-        _viol(ctx, p, "set-engine-command-differs", got=r["sets"], want=exp_set)
+        _echo(ctx, p, "set-engine-command-differs", got=r["sets"], want=exp_set)
     # coverage
     self_ = img.ivt["self"]
     required = [("ivt", self_, self_ + 0x20), ("boot-data", self_ + 0x20, self_ + 0x2C)]
@@ -1053,7 +1063,7 @@ def judge_auth(ctx, p, img, enc, app_addr, app_padded):  # noqa: C901
     csf_addr = img.ivt["csf"]
     for a, n in list(r["signed"]) + list(r.get("decrypt_blocks", [])):
         if a < self_ or a + n > csf_addr:
-            _viol(ctx, p, "authenticated-block-outside-image", block=(hex(a), hex(n)))
+            _echo(ctx, p, "authenticated-block-outside-ivt-to-csf", block=(hex(a), hex(n)))
     ctx.count("coverage_checked")
     # encryption
     if enc:
@@ -1061,9 +1071,12 @@ def judge_auth(ctx, p, img, enc, app_addr, app_padded):  # noqa: C901
             _viol(ctx, p, "encrypted-image-without-decrypt-command", commands=r["commands"])
             return
         if r["mac"]["mac_len"] != p.mac:
-            _viol(ctx, p, "mac-length-differs-from-configuration", got=r["mac"]["mac_len"], want=p.mac)
+            _echo(ctx, p, "mac-length-differs-from-configuration", got=r["mac"]["mac_len"], want=p.mac)
         if p.nonce is not None and r["mac"]["nonce"] != p.nonce:
-            _viol(ctx, p, "nonce-differs-from-configuration", got=r["mac"]["nonce"].hex(), want=p.nonce.hex())
+            _echo(ctx, p, "nonce-differs-from-configuration", got=r["mac"]["nonce"].hex(), want=p.nonce.hex())
+        c = getattr(p, "parsed_csf", None)  # round trip of the MAC record: what parse() reports == what the image holds
+        if c is not None and (c.nonce != r["mac"]["nonce"] or c.mac_len != r["mac"]["mac_len"]):
+            _viol(ctx, p, "parse-mac-parameters-differ", parsed_mac_len=c.mac_len, parsed_nonce=c.nonce and c.nonce.hex(), in_image=[r["mac"]["mac_len"], r["mac"]["nonce"].hex()])
         plain = b"".join(r["plain"][a] for a, _ in r["decrypted"])
         if r["decrypted"][0][0] != app_addr or plain[:len(p.app)] != p.app or any(plain[len(p.app):]):
             _viol(ctx, p, "ccm-decryption-does-not-restore-application", first_block=hex(r["decrypted"][0][0]), app_addr=hex(app_addr), plain_len=len(plain), app_len=len(p.app))
@@ -1071,10 +1084,15 @@ def judge_auth(ctx, p, img, enc, app_addr, app_padded):  # noqa: C901
             ctx.note("encrypted_application_also_listed_in_signed_blocks", p.set)
         sk = r["secret_key"]
         blob_want = p.start + p.ivt_off + len(img.data)
-        if sk is None or sk["blob_address"] != blob_want or sk["target"] != p.secret_slot or sk["source"] != p.kek_index:
-            _viol(ctx, p, "install-secret-key-differs", got=sk, blob_want=hex(blob_want))
-        elif sk["blob_address"] + 0x200 != img.boot_data["start"] + img.boot_data["length"]:
-            _viol(ctx, p, "dek-blob-outside-boot-data-length", blob=hex(sk["blob_address"]), boot_end=hex(img.boot_data["start"] + img.boot_data["length"]))
+        if sk is None:
+            _viol(ctx, p, "encrypted-image-without-install-secret-key", commands=r["commands"])
+        else:
+            if sk["target"] != p.secret_slot or sk["source"] != p.kek_index:
+                _echo(ctx, p, "install-secret-key-indices", got=sk)
+            # position clause: the key blob lives right behind the CSF, inside the boot-data length
+            if sk["blob_address"] != blob_want or sk["blob_address"] + 0x200 != img.boot_data["start"] + img.boot_data["length"]:
+                _viol(ctx, p, "dek-blob-address-vs-boot-data-length", blob=hex(sk["blob_address"]), end_of_export=hex(blob_want),
+                      boot_end=hex(img.boot_data["start"] + img.boot_data["length"]))
         ctx.count("ccm_decrypt_checked")
 
 
